@@ -54,10 +54,11 @@ fn gen_states<T: TElem>(g: &mut Sm64, n_chains: usize, len: usize, n_params: usi
     let mut locs = vec![];
     let mut scales = vec![];
     for _ in 0..n_params {
-        let s = if T::INT { g.uniform(2.0, 40.0) } else if g.chance(0.3) { g.log_uniform(1e-6, 1e4) } else { g.log_uniform(1e-2, 1e2) };
+        // (integers: sometimes magnitudes whose squares exceed the range of 32-bit integers)
+        let s = if T::INT && g.chance(0.3) { g.uniform(5_000.0, 30_000.0) } else if T::INT { g.uniform(2.0, 40.0) } else if g.chance(0.3) { g.log_uniform(1e-6, 1e4) } else { g.log_uniform(1e-2, 1e2) };
         scales.push(s);
         let ratio = if g.chance(0.7) { g.uniform(-3.0, 3.0) } else { g.uniform(-30.0, 30.0) };
-        locs.push(if T::INT { (ratio.abs() * s).min(2000.0) + 3.0 * s } else { ratio * s });
+        locs.push(if T::INT && s > 1000.0 { (ratio.abs().min(3.0) + 3.0) * s } else if T::INT { (ratio.abs() * s).min(2000.0) + 3.0 * s } else { ratio * s });
     }
     let stay = g.uniform(0.0, 0.8); // probability that a state repeats (a "rejection")
     let mut out = vec![];
